@@ -30,8 +30,8 @@ m) a read that planned with the old live list may still be running when the hand
    then FAIL the read, not answer it: ColumnLoader::read_column_for_zone may not turn a load error into an empty column (rows with NULL cells / half the COUNT are returned as a normal answer).
 Not decided: content equality, behaviour after a crash inside a run, a read that re-loads a retired label between invalidation and reclaim.
 """
-FLOOR = 18
-REQUIRED = ["C05.a", "C05.b1", "C05.b2", "C05.b3", "C05.c", "C05.d", "C05.e", "C05.f", "C05.g", "C05.h", "C05.i", "C05.j", "C05.k", "C05.l", "C05.m", "C05.n", "C05.o", "C05.p"]
+FLOOR = 19
+REQUIRED = ["C05.a", "C05.b1", "C05.b2", "C05.b3", "C05.c", "C05.d", "C05.e", "C05.f", "C05.g", "C05.h", "C05.i", "C05.j", "C05.k", "C05.l", "C05.m", "C05.n", "C05.o", "C05.p", "C05.q"]
 
 
 def run(ctx):
@@ -505,6 +505,29 @@ def run(ctx):
                 seen.add(x[0]); out.append(x)
         return out
     ctx.run("C05.p", "K4 EFFECT", "ZoneCursor::next_row", "a zone without a column of an optional field does not panic the compactor", p_)
+
+    def q_(inst):
+        """Segment labels are written by SegmentId::dir_name (zero-padded to AT LEAST five digits: level 10 and above have six) and read
+        back by SegmentId::from_str wherever a hand-over retires labels or an allocator is seeded. The reader must accept everything the
+        writer produces: from_str puts no condition on the length of the label (a label it refuses is silently never retired, and its
+        inputs stay live next to their outputs: aggregates multiply)."""
+        bad = []
+        b = F.fn("segment::segment_id::SegmentId::from_str")
+        fam = [b] + [F.fn_exact(k) for k in F.keys() if k.startswith(b.key + "::{closure")]
+        hit = None
+        for f_ in fam:
+            for i_ in sorted(f_.live_blocks()):
+                for st in f_.blocks[i_]["s"]:
+                    v = st.get("v") or {}
+                    if v.get("r") == "bin" and v.get("op") in ("Eq", "Ne", "Lt", "Le", "Gt", "Ge"):
+                        for side in ("a", "b"):
+                            if any(l[0] == "call" and re.search(r"str::len$|String::len$|slice::len$", norm_path(l[1])) for l in f_.origins(v[side])):
+                                hit = (f_, i_, v.get("op"))
+        inst.sites.append("%s: length test on the label: %s" % (sp(b, 0), bool(hit)))
+        if hit:
+            bad.append(("label-length-restricted", "SegmentId::from_str compares the length of the label (%s): dir_name pads to at least five digits, so the six-digit labels of level 10 and above no longer parse - they are never retired and their rows are counted once per level" % hit[2], sp(hit[0], hit[1])))
+        return bad
+    ctx.run("C05.q", "K11 SIB", "SegmentId::dir_name / SegmentId::from_str", "every label dir_name writes is a label from_str reads", q_)
 
     def l_(inst):
         b = F.fn("ZoneCursorLoader::load_all")
